@@ -36,7 +36,7 @@ SelectCases == {SelCase(u, b, TRUE) : u \in URIs, b \in BinSets}
 MarkerSets == {m \in SUBSET Markers : ".git/svn" \in m => ".git" \in m}
 DetBins  == IF Tier = "quick" THEN {Full, Full \ {"git"}} ELSE {Full, Full \ {"git"}, Full \ {"bzr"}, Full \ {"hg", "cvs"}}
 DetInfos == IF Tier = "quick" THEN {{}, {"bzr", "svn"}} ELSE SUBSET {"bzr", "svn"}
-Owners   == IF Tier = "quick" THEN {<<"root", FALSE>>, <<"nobody", FALSE>>, <<"nobody", TRUE>>, <<"unknown", TRUE>>}
+Owners   == IF Tier = "quick" THEN {<<"nobody", FALSE>>, <<"nobody", TRUE>>, <<"unknown", TRUE>>}
             ELSE {<<"root", FALSE>>, <<"nobody", FALSE>>, <<"nobody", TRUE>>, <<"unknown", TRUE>>, <<"unknown", FALSE>>}
 DetectCases == {[ev |-> "detect", markers |-> SetToSeq(x[1]), bins |-> SetToSeq(x[2]), info |-> SetToSeq(x[3]),
                  owner |-> x[4][1], usersync |-> x[4][2]] : x \in MarkerSets \X DetBins \X DetInfos \X Owners}
